@@ -4,7 +4,7 @@ HOOKS = {
     "guard": "verif",
     "enable": "go build -tags verif (harness module /verif/harness, replace github.com/marekgalovic/anndb => /repo)",
     "baseline_off_cmd": "cd /repo && GOFLAGS=-mod=mod GOPROXY=off GOSUMDB=off GOTOOLCHAIN=local go test -vet=off -count=1 ./...",
-    "source_commits": [],
+    "source_commits": ["a362471", "177728c", "4a0b422", "d8bf8b2", "8d16dd9"],
     "add_only": True,
 }
 
@@ -70,6 +70,18 @@ CHECKS.update({
         text="ProposeWait.tla models the register / propose / gap / select protocol of proposeAndWaitForCommit against the non-blocking notify of the apply loop, with the switch NotifCap (TLC: Truthful and Delivered hold for capacity 1, counterexample for the shipped capacity 0). On the real code a gate after raft.Propose forces both orders (caller first, apply loop first) for every outcome class on a real single-replica raft group, concurrent gated callers on equal and distinct ids, scripted remote owners (ok / failing / no address), dimension mismatches, and batches mixing partitions and item kinds; ProposeWaitTrace requires the sequential-set outcome for every local call, an error whenever the owner was not reached, and exactly the failed ids in batch answers.",
         note="One real single-replica raft group on in-memory Badger; remote owners are scripted gRPC servers; multi-replica log behaviour is C05.",
         technique="TLA+ model checking (TLC) + gate-forced caller/apply-loop orders on the real write path + TLC trace validation", ref="5/C11"),
+})
+
+RAFT_NOTE = ("etcd/raft and Badger are trusted. Nodes are simulated in one process per scenario: real RaftGroups, RaftTransports and gRPC servers on loopback, "
+             "in-memory Badger handles that survive the simulated crash (Goexit of the ready loop at a boundary + dark transport), restart with fresh objects as the allocator does. "
+             "Crash instants inside one Badger flush are not modelled. Convergence is decided on bounded runs and a stall only counts if it reproduces.")
+CHECKS.update({
+    "C05": dict(
+        text="RaftHost.tla models the ready loop of storage/raft/group.go over an abstract etcd-style library, with durable variables, a crash at every boundary of the cycle, restart, message loss, and the switches RestartMode / SendPolicy. TLC checks NoBad (Attested, ApplySafety, apply-only-durable), ElectionSafety and term >= durable term exhaustively for 2 replicas (3 replicas with symmetry in the thorough tier; counterexamples for RestartMode=start and SendPolicy=allFirst). On the real code dozens (thorough: hundreds) of scenarios - every boundary x role x cycle number, 1/3/5 replicas, drop/duplicate/delay, partitions, snapshots, a crashed minority of two - run on real RaftGroups with the verif hooks recording every boundary; RaftHostTrace rebuilds each node's durable state from the 'saved' events and checks Rebootstrap, ResumeOlder, Unattested, ApplyMismatch, ApplyOrder, ApplyNotDurable, Panic and NoConverge on every run.",
+        note=RAFT_NOTE, technique="TLA+ model checking (TLC) + crash/fault scenarios over the spec's crash points on real replicas + TLC trace validation of hook-recorded runs", ref="5/C05"),
+    "C03": dict(
+        text="The same RaftHost model and scenarios, with real Datasets on top of the replicated partitions: the client's submits and acknowledgements and every replica's final contents are part of the trace; RaftHostTrace requires every acknowledged write to be in the applied log (AckedLost), every applied change to have been submitted (NeverSubmitted), and every live replica's recovered contents to equal the sequential map applied to the applied log (ContentsVsLog), for a crash at every boundary of the ready cycle (before/after wal.Save, after each applied entry, around local snapshots) followed by restart and replay.",
+        note=RAFT_NOTE, technique="TLA+ model checking (TLC) + crash-point sweep on real replicated Datasets + TLC trace validation", ref="5/C03"),
 })
 
 NOT_APPLICABLE = {
